@@ -342,7 +342,10 @@ pub trait PathImpl: 'static {
 		loop {
 			match (self_it.next(), prefix_it.next()) {
 				(Some(self_seg), Some(prefix_seg))
-					if self_seg.as_pct_str() == prefix_seg.as_pct_str() => {}
+					if self_seg
+						.as_pct_str()
+						.bytes()
+						.eq(prefix_seg.as_pct_str().bytes()) => {}
 				(_, Some(_)) => return None,
 				(Some(seg), None) => buf.as_path_mut().push(seg),
 				(None, None) => break,
